@@ -15,7 +15,7 @@ CONSTANTS
   VarTypes <- VarTypesStd
   VarVals <- VarValsStd
   MaxOverlay = 0
-  MaxFaults = 2
+  MaxFaults = 1
 INVARIANT R1_Faults
 INVARIANT EmitF
 CHECK_DEADLOCK FALSE
